@@ -896,13 +896,6 @@ fn loco_sums_at(con: &Consist, k: usize) -> (f64, f64, f64) {
     s
 }
 
-/// absolute step budget of a driven run: never the deciding bound (that is the distance-scaled one in the final
-/// walk: 4 steps per remaining metre + 3000) - a heavy train crawling at 0.6 m/s over 40 km is slow, not stuck
-fn route_budget(case: &Case) -> usize {
-    let path_len: f64 = case.route.iter().map(|l| case.links[*l as usize].length.value).sum();
-    60_000usize.max((6.0 * path_len) as usize + 10_000)
-}
-
 /// one unit gets an interval of its own, different from the one about to be set at the top
 fn nested_drift(con: &mut Consist, about_to_set: Option<usize>) {
     let own = if about_to_set == Some(9) { None } else { Some(9) };
@@ -1530,7 +1523,7 @@ impl Runner {
         sim.state.dt = dt * uc::S;
         let tr = Traj { states: vec![sim.state], con: vec![sim.loco_con.state], loco_sums: vec![loco_sums(&sim.loco_con)], fric: vec![sim.fric_brake.state.force.value], fric_ramp_up: sim.fric_brake.ramp_up_time.value, auth_end: vec![0.0], delivered: vec![0] };
         BRAKE_CTX.with(|c| c.set((tr.fric_ramp_up, false)));
-        Runner { sim, tr, al: Align { i: 1, len: 0, interval: case.save_interval }, dt, k: 0, done: 0, ci: 0, ii: 0, arrived: false, terminated: false, budget: route_budget(case), rest_outside: 0, stuck: false, final_walk: false, handed_over: false }
+        Runner { sim, tr, al: Align { i: 1, len: 0, interval: case.save_interval }, dt, k: 0, done: 0, ci: 0, ii: 0, arrived: false, terminated: false, budget: 60_000, rest_outside: 0, stuck: false, final_walk: false, handed_over: false }
     }
     fn align(&self, ctx: &mut Ctx, after: &str) {
         let s = &self.sim;
@@ -1640,6 +1633,9 @@ impl Runner {
         let bound = 4 * remaining as usize + 3000;
         let mut n = 0usize;
         self.final_walk = true;
+        // the absolute step budget must never bind before the distance-scaled bound below does (a heavy train
+        // crawling at 0.6 m/s over 40 km is slow, not stuck)
+        self.budget = self.budget.max(self.k + bound + 1000);
         while self.go_on() {
             // At rest for 900 steps with a zero controller target, outside the stopping window, nothing left to deliver
             // and no fault pending: as final as a state can be (the target depends on position and speed only). What
